@@ -119,6 +119,7 @@ pub const F_ACK_WITHOUT_ENTRY: u32 = 4; // a leader advanced its commit to i on 
 pub const F_OLD_TERM_COMMIT: u32 = 8; // a leader newly committed an entry of an older term than its own
 pub const F_DUP_INDEX: u32 = 16; // a node's storage holds two entries with one index
 pub const F_DOUBLE_VOTE: u32 = 32; // a node answered Vote with Ok for two candidates in one term
+pub const F_OLDER_LEADER_ACCEPTED: u32 = 128; // a node answered Ok to Append/Heartbeat of a leader whose term is lower than a term the node has already voted in
 pub const F_STALE_VOTE: u32 = 64; // a candidate became leader counting an Ok reply to a Vote request of another term
 
 #[derive(Clone, Default, PartialEq, Eq, Debug)]
@@ -156,6 +157,7 @@ pub fn exit_kind_name(k: u8) -> &'static str {
         2 => "after-follower",
         3 => "after-reply",
         4 => "after-higher-vote",
+        6 => "own-candidacy-in-a-term-already-voted-in",
         _ => "while-voted",
     }
 }
@@ -485,6 +487,12 @@ impl World {
                     }
                     set_insert(&mut self.ghost.grants[i], (term, cand));
                 }
+                Msg::Req(r) if (r.v_kind() == raft::V_APPEND || r.v_kind() == raft::V_HEARTBEAT) && ok => {
+                    let term = r.v_fields()[3];
+                    if self.ghost.grants[i].iter().any(|g| g.0 > term) {
+                        self.ghost.flags |= F_OLDER_LEADER_ACCEPTED;
+                    }
+                }
                 Msg::Resp(r, _) if r.v_kind() == raft::V_VOTE && ok && before.kind == raft::V_CANDIDATE => {
                     let f = r.v_fields();
                     self.ghost.counted[i][f[2] as usize] = f[3] + 1;
@@ -506,6 +514,12 @@ impl World {
         if after.kind == raft::V_CANDIDATE && before.kind != raft::V_CANDIDATE {
             self.ghost.cand_term[i] = after.term;
             self.ghost.counted[i] = [0; N];
+            // standing for a term is a vote for oneself in that term
+            let others: Vec<u8> = self.ghost.grants[i].iter().filter(|g| g.0 == after.term && g.1 != i as u8).map(|g| g.1).collect();
+            for o in others {
+                set_insert(&mut self.ghost.double_votes, (after.term, i as u8, o.min(i as u8), o.max(i as u8), 6));
+                self.ghost.flags |= F_DOUBLE_VOTE;
+            }
         }
 
         // ---- C27: at most one leader per term
@@ -679,6 +693,8 @@ impl World {
         let f = self.ghost.flags;
         if f & F_TWO_LEADERS != 0 {
             "two-leaders-one-term"
+        } else if f & F_OLDER_LEADER_ACCEPTED != 0 {
+            "follower-of-older-term-leader-after-voting-in-newer-term"
         } else if f & F_STALE_ACK != 0 {
             "commit-on-reply-of-another-term"
         } else if f & F_ACK_WITHOUT_ENTRY != 0 {
